@@ -15,6 +15,7 @@ RULE = ("Engine::miller_loop over lists of prepared pairs followed by final_expo
         "(and prepared once, used many times). Oracle: prod over distinct base pairs of textbook e(B1,B2)^(sum a_i b_i), "
         "computed by the model; exactly 1 when the exponents cancel. A case is (op, list length, #identity pairs, "
         "cancelling?, repeated pairs?, build)")
+RULE += (" " + 'The pairs reach miller_loop through nine kinds of iterator (slice, &Vec, filter, uninformative size_hint, chain, VecDeque, from_fn, skip_while+take); prepared slots overwritten in place by Clone::clone_from are used too.')
 ASSUMPTIONS = ["textbook pairing model (see C03)", "a Miller-loop value is only judged through its final exponentiation"]
 MIN_EVALS = {"quick": 200, "thorough": 10000}
 
